@@ -2,7 +2,7 @@ CHECK = {
     "level": "exploration",
     "engine": "logger-conc",
     "technique": "runtime monitoring under the race detector: N goroutines create contexts and log through every entry point; a recording writer installed with Switch checks every Write against the line grammar, exactly-once delivery per call token, the cid per context kind, process-wide uniqueness of WithContext ids and alias==source; race reports are counted by the driver",
-    "level_text": "Held on the executions observed: tens of runs (quick) to thousands (thorough) of 2..64 goroutines released together, about a million contexts and log lines per quick run, every Write parsed. The schedules are those the Go runtime produced under Gosched perturbation, not all interleavings; a clean run does not prove the absence of a race the runtime never scheduled.",
+    "level_text": "Held on the executions observed: tens of runs (quick) to thousands (thorough) of 2..64 goroutines released together, about 180 000 contexts and 230 000 log lines per quick run (2.4 million contexts in the thorough tier), every Write parsed. The schedules are those the Go runtime produced under Gosched perturbation, not all interleavings; a clean run does not prove the absence of a race the runtime never scheduled.",
     "level_note": "Trusts the Go race detector and runtime, the standard log package's one-Write-per-line behaviour being observable at the writer, and the harness's parser. Ids of library-made contexts are read from the lines logged with them (no exported accessor). Concurrent Switch/Close is outside the statement and not exercised.",
     "parts": [
         {"name": "conc", "pkg": "verifharness/prop/c18", "run": "^TestVerif_C18_Conc$", "race": True,
